@@ -32,7 +32,7 @@ PROPS = {
         'assumptions': ['World.Valid inputs; ANP priorities distinct and within 0..1000'],
     },
     'C05': {
-        'lean': ['Netpol.Properties.C05'],
+        'lean': ['Netpol.Properties.C05', 'Netpol.Tie.Procs'],
         'families': [('list', 1500, 60000), ('exposure', 150, 6000)],
         'accept_props': ['C05'],
         'shard_min': 50,
@@ -78,7 +78,7 @@ PROPS = {
         'assumptions': ['inputs without admin policies'],
     },
     'C16': {
-        'lean': ['Netpol.Properties.C16', 'Netpol.Tie.Consts'],
+        'lean': ['Netpol.Properties.C16', 'Netpol.Tie.Consts', 'Netpol.Tie.Procs'],
         'families': [('focus', 500, 20000), ('fmt', 150, 3000)],
         'accept_props': ['C16'],
         'shard_min': 50,
